@@ -261,3 +261,65 @@ func MonC16() *Mon {
 		},
 	}
 }
+
+// ---- catching up from recovery messages (C09) ------------------------------------------
+
+// MonRecoveryCatchUp is the positive half of "nodes catch up from recovery messages": when an active
+// node has processed a recovery message of (what is now) its own height and view that carries the authentic
+// proposal of that view, and nothing entitled it to refuse proposals, it holds a proposal afterwards.
+// Necessary condition only: which proposal it holds, and what it did with it, is judged elsewhere.
+func MonRecoveryCatchUp(propName string) *Mon {
+	refusing := map[*Node]bool{} // before the call: view changing and not (more than F committed or lost)
+	return &Mon{Name: propName + "-catchup",
+		BeforeCall: func(n *Node, c *Call) {
+			d := n.D
+			refusing[n] = false
+			if d.Validators == nil || c.Kind != CReceive || !d.ViewChanging() {
+				return
+			}
+			// "more than F committed or lost" as it will stand once the message itself has marked its sender alive
+			lost := 0
+			for i, hv := range d.LastSeenMessage {
+				if i == int(c.P.Idx) && c.P.Ht == d.BlockIndex && c.P.V >= d.ViewNumber {
+					continue
+				}
+				if d.CommitPayloads[i] == nil && d.PreCommitPayloads[i] == nil && (hv == nil || hv.Height < d.BlockIndex || hv.View < d.ViewNumber) {
+					lost++
+				}
+			}
+			refusing[n] = d.CountCommitted()+lost <= d.F()
+		},
+		AfterCall: func(n *Node, c *Call) {
+			if c.Kind != CReceive || c.P.T != dbft.RecoveryMessageType || !n.Active() || n.Crashed {
+				return
+			}
+			d, w := n.D, n.W
+			if d.BlockIndex != c.P.Ht || d.ViewNumber != c.P.V || d.BlockSent() {
+				return
+			}
+			if c.PreView == d.ViewNumber && c.PreHeight == d.BlockIndex && refusing[n] {
+				return // entitled to ignore preparations of the view it has asked to leave (judged on entry: the
+				// preparations of a recovery message are replayed before its commits are counted)
+			}
+			N := len(d.Validators)
+			pi := refPrimary(d.BlockIndex, d.ViewNumber, N)
+			var prop Payload
+			for _, e := range c.P.Body.(*vt.RecoveryMessage).Embedded {
+				if e.T == dbft.PrepareRequestType && e.Ht == d.BlockIndex && e.V == d.ViewNumber && int(e.Idx) == pi && authenticAt(w, e, d.BlockIndex) &&
+					!PolicyRejected(e.Body.(*vt.PrepareRequest).N) {
+					prop = e
+				}
+			}
+			if prop == nil {
+				return
+			}
+			w.Stat("catchup_recovery_with_proposal")
+			if c.PreView != d.ViewNumber || c.PreHeight != d.BlockIndex {
+				w.Stat("catchup_view_changed_inside_recovery")
+			}
+			if d.PreparationPayloads[pi] == nil {
+				w.Fail(propName, fmt.Sprintf("node %d at (%d,%d): a recovery message carrying the proposal of that view (%s) was processed, yet the node holds no proposal", n.ID, d.BlockIndex, d.ViewNumber, prop.Summary()), "recovery-proposal-not-restored")
+			}
+		},
+	}
+}
